@@ -11,30 +11,69 @@ Require Import Verif.Cmds.Walk Verif.Cmds.WalkProps Verif.Cmds.Model Verif.Cmds.
    has no well-formedness condition), every modelled command and every renderer availability, the guard structure
    of the CURRENT source (Gen/CmdGuards.v) ends in Ok or Err with fuel_bound m = 1 + #calls + #types steps of
    recursion depth. *)
-Theorem C20_cmd_total : forall m rend fuel c, (fuel_bound m <= fuel)%nat -> fine (run current m rend fuel c) = true.
+Theorem C20_cmd_total : forall m rend fuel c, (fuel_bound m + cmd_extra c <= fuel)%nat -> fine (run current m rend fuel c) = true.
 Proof. exact current_cmd_total. Qed.
 Print Assumptions C20_cmd_total.
 
 (* generic form: any source whose modelled lookups are all guarded *)
 Theorem C20_cmd_total_guarded : forall g, all_guarded g = true ->
-  forall m rend fuel c, (fuel_bound m <= fuel)%nat -> fine (run g m rend fuel c) = true.
+  forall m rend fuel c, (fuel_bound m + cmd_extra c <= fuel)%nat -> fine (run g m rend fuel c) = true.
 Proof. exact cmd_total. Qed.
 Print Assumptions C20_cmd_total_guarded.
 
-(* the recursion scheme shared by the mermaid generators and the pass-through walk terminates, whether a key stays
-   recorded for the whole run (persist = true, mermaid) or only while its callee is expanded (false, IntsBuilder.walking):
-   with the visited list consulted, fuel above the number of not-yet-visited keys is never exhausted and, if no lookup panics,
-   the walk ends in Ok or Err - for every graph (cycles, self loops, dangling targets) *)
+(* the recursion scheme shared by the mermaid generators, the pass-through walk and the sd visitor terminates under EVERY
+   marker discipline with `terminating d = true` - the set is consulted and a key is recorded before the test, or behind it
+   and removed never (mermaid pair lists) or only behind the callee's expansion (IntsBuilder.walking, visitor.visited):
+   fuel above the number of not-yet-recorded keys is never exhausted and, if no lookup panics, the walk ends in Ok or Err -
+   for every graph (cycles with several edges per direction, chords, repeated self loops, dangling targets) *)
 Theorem C20_walk_terminates : forall (node key : Type) (keqb : key -> key -> bool),
   (forall a b, keqb a b = true <-> a = b) ->
-  forall (expand : node -> outcome * list (@edge node key)) (onerr : outcome) (persist : bool) (U : list key),
+  forall (expand : node -> outcome * list (@edge node key)) (onerr : outcome) (U : list key),
   (forall n o es pre k n', expand n = (o, es) -> In (pre, Some (k, n')) es -> In k U) ->
   (forall n, fine (fst (expand n)) = true) ->
   (forall n pre tgt, In (pre, tgt) (snd (expand n)) -> fine pre = true) ->
   fine onerr = true ->
-  forall n, fine (fst (walk keqb expand onerr true persist (S (List.length U)) n [])) = true.
+  forall d, terminating d = true ->
+  forall n, fine (fst (walk keqb expand onerr d (S (List.length U)) n [])) = true.
 Proof. exact @walk_total. Qed.
 Print Assumptions C20_walk_terminates.
+(* a concrete non-trivial input meeting the hypotheses: one node with two edges to itself, under both disciplines of the repository *)
+Example C20_walk_terminates_example :
+  (fst (walk unit_eqb loop2_expand Err d_persistent 2 tt []), fst (walk unit_eqb loop2_expand Err d_in_progress 2 tt [])) = (Ok, Ok).
+Proof. exact loop2_terminates. Qed.
+
+(* the disciplines of the CURRENT source (read by the translator from WalkPassthrough, visitEndpoint and the two mermaid
+   printers) are terminating ones *)
+Theorem C20_current_disciplines_terminate :
+  terminating (g_ints_disc current) && terminating (g_sd_disc current) && terminating (g_mseq_disc current) && terminating (g_mint_disc current) = true.
+Proof. exact current_disciplines_terminate. Qed.
+Print Assumptions C20_current_disciplines_terminate.
+
+(* un-marking when the re-entry test CUT the edge (a `defer delete` in front of the test, a delete in the cut branch) loses
+   termination: a node with two edges to itself exhausts every amount of fuel - with the key recorded by the caller, and
+   entered from outside *)
+Theorem C20_walk_cut_unmark_refuted :
+  (forall fuel vis, fst (walk unit_eqb loop2_expand Err d_cut_unmarks fuel tt (tt :: vis)) = OutOfFuel) /\
+  (forall fuel, fst (walk unit_eqb loop2_from_root Err d_cut_unmarks fuel true []) = OutOfFuel).
+Proof. exact (conj cut_unmark_refuted cut_unmark_refuted_start). Qed.
+Print Assumptions C20_walk_cut_unmark_refuted.
+Theorem C20_walk_untested_refuted :
+  forall fuel vis, fst (walk unit_eqb (fun _:unit => (Ok, [(Ok, Some (tt, tt))])) Err d_untested fuel tt vis) = OutOfFuel.
+Proof. exact untested_refuted. Qed.
+Print Assumptions C20_walk_untested_refuted.
+(* ... in each of the four generators, on a model whose endpoint calls itself twice *)
+Theorem C20_ints_cut_unmark_refuted : forall fuel rend, run ints_cut_unmarks m_pass_loop2 rend fuel (CInts 9 []) = OutOfFuel.
+Proof. exact ints_cut_unmark_refuted. Qed.
+Print Assumptions C20_ints_cut_unmark_refuted.
+Theorem C20_sd_cut_unmark_refuted : forall fuel rend, run sd_cut_unmarks m_self_loop2 rend fuel (CSd 1 1) = OutOfFuel.
+Proof. exact sd_cut_unmark_refuted. Qed.
+Print Assumptions C20_sd_cut_unmark_refuted.
+Theorem C20_mseq_cut_unmark_refuted : forall fuel rend, run mseq_cut_unmarks m_self_loop2 rend fuel (CMSeq 1 1) = OutOfFuel.
+Proof. exact mseq_cut_unmark_refuted. Qed.
+Print Assumptions C20_mseq_cut_unmark_refuted.
+Theorem C20_mint_cut_unmark_refuted : forall fuel rend, run mint_cut_unmarks m_self_loop2 rend fuel (CMInt (Some 1%N)) = OutOfFuel.
+Proof. exact mint_cut_unmark_refuted. Qed.
+Print Assumptions C20_mint_cut_unmark_refuted.
 
 Theorem C20_guards_ok : all_guarded current = true.
 Proof. exact guards_ok. Qed.
@@ -45,9 +84,13 @@ Theorem C20_modelled_functions_do_not_panic :
 Proof. exact modelled_functions_do_not_panic. Qed.
 Print Assumptions C20_modelled_functions_do_not_panic.
 
-Theorem C20_only_main_exits : map (fun s => fst (fst s)) exit_sites = ["sysl.main"%string].
+Theorem C20_only_main_exits : map (fun s => fst (fst s)) (filter (fun s => negb (in_eval (fst (fst s)))) exit_sites) = ["sysl.main"%string].
 Proof. exact only_main_exits. Qed.
 Print Assumptions C20_only_main_exits.
+Theorem C20_eval_exit_sites : map (fun s => fst (fst s)) (filter (fun s => in_eval (fst (fst s))) exit_sites)
+                              = ["eval.repl.handleInput"; "eval.exprEval.handlePanic"]%string.
+Proof. exact eval_exit_sites. Qed.
+Print Assumptions C20_eval_exit_sites.
 
 (* every guard is necessary: without it (all others in place) a minimal module reaches the panic site that was
    reachable in the repository before the repair *)
@@ -89,3 +132,27 @@ Print Assumptions C20_mint_app_refuted.
 Theorem C20_render_recover_refuted : run no_render_recover m_rpc false (fuel_bound m_rpc) (CMInt None) = Panic SRender.
 Proof. exact render_recover_refuted. Qed.
 Print Assumptions C20_render_recover_refuted.
+Theorem C20_sd_target_refuted : run no_sd_target m_dangling_app true (fuel_bound m_dangling_app) (CSd 1 1) = Panic SSdTarget.
+Proof. exact sd_target_refuted. Qed.
+Print Assumptions C20_sd_target_refuted.
+Theorem C20_delta_relation_refuted :
+  run no_delta_relation m_delta_new_type true (fuel_bound m_delta_new_type + cmd_extra (CDbDelta m_delta_old [1%N])) (CDbDelta m_delta_old [1%N]) = Panic SDeltaRelation.
+Proof. exact delta_relation_refuted. Qed.
+Print Assumptions C20_delta_relation_refuted.
+Theorem C20_delta_trim_refuted :
+  run no_coldef_plain m_delta_new true (fuel_bound m_delta_new + cmd_extra (CDbDelta m_delta_old [1%N])) (CDbDelta m_delta_old [1%N]) = Panic SDeltaTrim.
+Proof. exact delta_trim_refuted. Qed.
+Print Assumptions C20_delta_trim_refuted.
+Theorem C20_template_app_refuted : run no_tmpl_app m_rpc true (fuel_bound m_rpc) (CTemplate [7%N] false) = Panic STemplateApp
+                                /\ run no_tmpl_app m_rpc true (fuel_bound m_rpc) (CTemplate [] true) = Panic STemplateApp.
+Proof. exact template_app_refuted. Qed.
+Print Assumptions C20_template_app_refuted.
+Theorem C20_rig_app_refuted : run no_rig_nilapp m_rpc true (fuel_bound m_rpc) (CTestRig [1%N; 7%N]) = Panic SRigApp.
+Proof. exact rig_app_refuted. Qed.
+Print Assumptions C20_rig_app_refuted.
+(* hang side: every directly self-recursive function of the reached packages is covered by a termination theorem or named as
+   not proved (Cmds/Current.v lists both) *)
+Theorem C20_recursions_accounted :
+  forallb (fun f => existsb (String.eqb f) (proved_recursions ++ unproved_recursions)) recursive_functions = true.
+Proof. exact recursions_accounted. Qed.
+Print Assumptions C20_recursions_accounted.
